@@ -248,7 +248,7 @@ _hangs = {}
 
 def run_lines(binary, lines, timeout=600, env=None):
     """feed script lines to a line-protocol binary; returns (out_lines, rc, stderr).
-    A harness that makes no progress on one script line for 60 s is ended by its own watchdog (harness/common/lp.h,
+    A harness that makes no progress on one script line for 120 s is ended by its own watchdog (harness/common/lp.h,
     exit code 124).  A hang is a violation in itself; after HANG_BUDGET hangs of one binary in this run the remaining
     scripts for it are not executed any more (they are answered with the same exit code at once), so that a change that
     makes the daemon deadlock is reported within minutes instead of after cases x watchdog seconds."""
@@ -258,7 +258,7 @@ def run_lines(binary, lines, timeout=600, env=None):
     e = dict(os.environ)
     e.setdefault("ASAN_OPTIONS", "detect_leaks=1:abort_on_error=0:allocator_may_return_null=1")
     e.setdefault("UBSAN_OPTIONS", "print_stacktrace=1")
-    e.setdefault("LP_WATCHDOG", "60")
+    e.setdefault("LP_WATCHDOG", "120")
     if env:
         e.update(env)
     try:
